@@ -105,6 +105,19 @@ def noExpire : List Op → Bool
   | .ev _ :: t => noExpire t
   | .expire _ :: _ => false
 
+/-- the ops that concern limiter key `k`: its events and its expiries -/
+def onKey (cfg : Cfg) (k : Bytes) : List Op → List Op
+  | [] => []
+  | .ev e :: t => if limKeyOf cfg e = some k then .ev e :: onKey cfg k t else onKey cfg k t
+  | .expire k' :: t => if k' = k then .expire k' :: onKey cfg k t else onKey cfg k t
+
+/-- the answers given to the events of limiter key `k` -/
+def answersFor (cfg : Cfg) (k : Bytes) : List Op → List Res → List Res
+  | .ev e :: ops, r :: rs =>
+    if limKeyOf cfg e = some k then r :: answersFor cfg k ops rs else answersFor cfg k ops rs
+  | .expire _ :: ops, _ :: rs => answersFor cfg k ops rs
+  | _, _ => []
+
 /-! ### the oracle -/
 
 def allIdx (n : Nat) (f : Nat → Bool) : Bool := (List.range n).all f
